@@ -56,11 +56,12 @@ func loadKnownFindings() (knownFindings, error) {
 	return kf, nil
 }
 
-func (kf knownFindings) openMap() map[string]string {
-	m := map[string]string{}
+// openMap: finding id -> assertion ids it excuses ("a|b" lists alternatives).
+func (kf knownFindings) openMap() map[string][]string {
+	m := map[string][]string{}
 	for _, k := range kf {
 		if k.Status == "open" {
-			m[k.ID] = k.AssertID
+			m[k.ID] = strings.Split(k.AssertID, "|")
 		}
 	}
 	return m
@@ -353,7 +354,7 @@ func xval(ld *loaded, entry *ssa.Function, h *harnessSpec, params map[string]int
 			// native crash (e.g. stack overflow on a known finding): skip
 			continue
 		}
-		st := vm.Explore(vm.Config{Machine: ld.m, Entry: entry, Harness: h.Name, Workers: 1, Params: params, KnownOpen: map[string]string{}, Concrete: nr.inputs, CollectObs: true, AllFailuresKnown: true})
+		st := vm.Explore(vm.Config{Machine: ld.m, Entry: entry, Harness: h.Name, Workers: 1, Params: params, KnownOpen: map[string][]string{}, Concrete: nr.inputs, CollectObs: true, AllFailuresKnown: true})
 		nat := strings.Join(nr.trace, "\n") + "\n#" + strings.Join(dedupSorted(nr.fails), ",")
 		match := false
 		for _, o := range st.Obs {
